@@ -95,12 +95,91 @@ def lemmas(ctx, real):
     ctx.solve()
 
 
+# ------------------------------------------------------------------------------------------------
+# P-08a/b: the validator itself and "a rejected value leaves the mapping unchanged"
+from vf.pyvc.speclib import SpecLib
+from vf.pyvc.world import World, Contract
+from vf.pyvc.interp import LoopSpec
+from vf.pyvc.values import VObj, VBox, VSeq, VFunc, DictVal, empty_dict, fresh, fresh_name, lift, NONE
+from vf.pyvc.driver import verify_contracts
+
+
+def cont_ok(ls, k):
+    """every line of ls from index k on is non-empty and starts with a whitespace character"""
+    if k >= len(ls):
+        return True
+    return len(ls[k]) > 0 and ls[k][0].isspace() and cont_ok(ls, k + 1)
+
+
+def shape_ok(value):
+    """what validate_input accepts: no trailing newline; every line after the first non-empty and
+    starting with whitespace (lines as str.splitlines sees them)"""
+    return (not value.endswith("\n")) and cont_ok(value.splitlines()[1:], 0)
+
+
+class ValidateInput(Contract):
+    target = MOD + ":Deb822.validate_input"
+    modular = True
+    requires = ()
+    ensures = ("shape_ok(value)",)
+    raises = {"ValueError": ("not shape_ok(value)",)}
+    raises_modifies = {"ValueError": ()}
+    modifies = ()
+    loops = {0: LoopSpec(invariants=("cont_ok(value.splitlines()[1:], vi) == cont_ok(value.splitlines()[1:], 0)",
+                                     "0 <= vi and vi <= len(value.splitlines()[1:])"),
+                         index="vi", var_types={"line": "str"})}
+    locals_order = ["self", "key", "value", "line"]
+
+    def setup(self, ex):
+        me = VObj("Deb822", {}, "self")
+        return {"self": me, "key": fresh("str", "key"), "value": fresh("str", "value")}
+
+
+class DictSetItem(Contract):
+    """ASSUMED frame of Deb822Dict.__setitem__ (its behaviour is C09's business): it only touches the
+    key set and the value dictionary"""
+    target = MOD + ":Deb822Dict.__setitem__"
+    modular = True
+    modifies = ("self._Deb822Dict__keys", "self._Deb822Dict__dict")
+
+    def setup(self, ex):
+        raise NotImplementedError
+
+
+class SetItem(Contract):
+    target = MOD + ":Deb822.__setitem__"
+    modular = False
+    ensures = ("shape_ok(value)",)
+    raises = {"ValueError": ("not shape_ok(value)",)}
+    raises_modifies = {"ValueError": ()}          # a rejected value leaves the paragraph exactly as it was
+    modifies = ("self._Deb822Dict__keys", "self._Deb822Dict__dict")
+
+    def setup(self, ex):
+        me = VObj("Deb822", {"_Deb822Dict__keys": fresh("int", "keys_state"), "_Deb822Dict__dict": fresh("int", "dict_state"),
+                             "_Deb822Dict__parsed": NONE}, "self")
+        return {"self": me, "key": fresh("str", "key"), "value": fresh("str", "value")}
+
+
+def run_deductive(ctx):
+    sl = SpecLib()
+    w = World(sl)
+    w.spec_func(shape_ok)
+    w.spec_func(cont_ok, rec=dict(args=[("list", "str"), "int"], ret="bool"))
+    c = ValidateInput()
+    w.add_contract(c)
+    w.add_contract(DictSetItem())
+    verify_contracts(ctx, w, [c, SetItem()], {})
+    ctx.trusted.append("ASSUMED frame: Deb822Dict.__setitem__ modifies only its key set and value dictionary")
+    ctx.solve()
+
+
 def run(ctx):
     mod = extract.load(MOD)
     real = mod.real()
     node, _ = mod.lookup("Deb822.validate_input")
     ctx.function_under_contract(MOD + ":Deb822.validate_input", mod.segment(node))
     lemmas(ctx, real)
+    run_deductive(ctx)
     rng = random.Random(ctx.seed)
     Deb822 = real.Deb822
     N = 5 if ctx.tier == "quick" else 6
@@ -161,8 +240,11 @@ def run(ctx):
     t.done(exhaustive=(ctx.tier != "quick"))
     ctx.level = "other"
     ctx.explanation = ("R-08d: the anti-drift lemmas between validator and parser patterns are PROVED for all lines of the stated "
-                       "domain (SMT on the real pattern objects). The validator function itself, _dump_format and the parser loops "
-                       "are not under a pyvc contract yet: their composition is covered by the BOUNDED enumeration of all short values.")
+                       "domain (SMT on the real pattern objects). ALSO PROVED from the AST: validate_input returns normally exactly on "
+                       "values without trailing newline whose later lines (as str.splitlines sees them) are non-empty and start with a "
+                       "whitespace character, and raises ValueError otherwise; Deb822.__setitem__ validates before it stores, so a "
+                       "rejected value leaves the paragraph exactly as it was. _dump_format and the parser loops are not under a "
+                       "contract: the composition validator -> dump -> parser is covered by the BOUNDED enumeration of all short values.")
     ctx.assumptions += ["character domain as stated in the property: Python-only whitespace / line boundaries (NBSP, VT, FF, "
                         "FS-US, NEL, U+2028 ...) are outside"]
 
